@@ -124,6 +124,8 @@ pub trait CircuitBreakerTrait: Send + Sync {
         match self.current_state() {
             State::Closed => true,
             State::Open => {
+                #[cfg(feature = "verif_hooks")]
+                crate::verif::sync::sync_point(3);
                 self.breaker().retry_timeout_arrived() && self.breaker().from_open_to_half_open(ctx)
             }
             State::HalfOpen => false,
